@@ -331,6 +331,19 @@ func (r *vfcrigReader) blockSamples(ctx context.Context, mem *objstore.InMemBuck
 	return out, nil
 }
 
+// vfcrigComplete reports whether every file listed in the block's meta is present in the bucket.
+func vfcrigComplete(objs map[string][]byte, m *metadata.Meta) bool {
+	for _, f := range m.Thanos.Files {
+		if f.RelPath == "" || f.RelPath == "meta.json" {
+			continue
+		}
+		if _, ok := objs[m.ULID.String()+"/"+f.RelPath]; !ok {
+			return false
+		}
+	}
+	return true
+}
+
 type vfcrigGauge struct{ g prometheus.Gauge }
 
 func (v vfcrigGauge) WithLabelValues(...string) prometheus.Gauge { return v.g }
